@@ -19,10 +19,12 @@ def replaceMatch(match: Match, replacement: str, expand: Optional[Expand] = None
     def repl(m):
         assert expand is not None
         # Replace $1, $2 ... with corresponding match groups.
+        # Each group gets its own copy of the options: a '$$n' does not turn on spans for the '$n's that follow it.
+        groupExpand = Expand.copyFrom(expand)
         if m[1] == '$$':
-            expand.spans = True
+            groupExpand.spans = True
         else:
-            expand.specials = True
+            groupExpand.specials = True
         i = int(m[2])
         # match group number.
         if i > match.re.groups:
@@ -30,8 +32,8 @@ def replaceMatch(match: Match, replacement: str, expand: Optional[Expand] = None
             return ''
         result = match[i] or ''  # A group that did not participate in the match is blank.
         # match group text.
-        result = replaceInline(result, expand)
-        if not expand.spans:
+        result = replaceInline(result, groupExpand)
+        if not groupExpand.spans:
             # The group may be injected into a double-quoted HTML attribute value.
             result = result.replace('"', '&quot;')
         return result
